@@ -283,14 +283,20 @@ Proof. intros Hn. induction l as [|[k1 v1] l IH]; simpl.
   - destruct (name_eqb k' k1) eqn:E; simpl; [|rewrite IH; auto].
     apply name_eqb_eq in E. subst k1. destruct (name_eqb k k') eqn:E2; auto. apply name_eqb_eq in E2; congruence. Qed.
 
+Lemma remove_name_notin k l : ~ In k l -> remove_name k l = l.
+Proof. intros H. unfold remove_name. apply filter_all. intros x Hx. apply negb_true_iff. apply name_eqb_neq. intro; subst; auto. Qed.
+
 Lemma edit_untouched o T T' : in_class o = true -> edit o T = BOk T' ->
+  ((forall k, In k (tb_pk T) -> ~ In k (op_mentions o)) -> tb_pk T' = tb_pk T) /\
   (forall k, ~ In k (op_mentions o) -> aget k (tb_cols T') = aget k (tb_cols T)) /\
   (forall c, In c (tb_cons T) -> ~ In (k_name c) (op_mentions o) -> In c (tb_cons T')) /\
   (forall x, In x (tb_idx T) -> ~ In (x_name x) (op_mentions o) -> In x (tb_idx T')).
 Proof.
   intros Hc He. destruct o as [k c b a|k|k a|c|n|x|n]; cbn [in_class edit op_mentions] in *; try discriminate.
   - destruct (negb (has_key k T)); [discriminate|]. destruct (existsb _ (tb_idx T)); [discriminate|]. destruct (existsb _ (tb_cons T)); [discriminate|].
-    inversion He; subst T'; cbn. repeat split; auto. intros k0 Hk. apply aget_adel_other. simpl in Hk. intuition.
+    inversion He; subst T'; cbn. repeat split; auto.
+    + intros Hpk. apply remove_name_notin. intro Hin. apply (Hpk k Hin). simpl; auto.
+    + intros k0 Hk. apply aget_adel_other. simpl in Hk. intuition.
   - destruct (aget k (tb_cols T)); [|discriminate]. destruct (mem_name _ _); [discriminate|].
     inversion He; subst T'; cbn. repeat split; auto. intros k0 Hk. apply aget_aset_other. simpl in Hk. intuition.
   - destruct (_ || _); [discriminate|]. inversion He; subst T'; cbn. repeat split; auto. intros; apply in_or_app; auto.
@@ -302,6 +308,7 @@ Proof.
 Qed.
 
 Theorem untouched_spec ops : forall T T', forallb in_class ops = true -> edit_all ops T = BOk T' ->
+  ((forall k, In k (tb_pk T) -> ~ In k (mentioned ops)) -> tb_pk T' = tb_pk T) /\
   (forall k, ~ In k (mentioned ops) -> aget k (tb_cols T') = aget k (tb_cols T)) /\
   (forall c, In c (tb_cons T) -> ~ In (k_name c) (mentioned ops) -> In c (tb_cons T')) /\
   (forall x, In x (tb_idx T) -> ~ In (x_name x) (mentioned ops) -> In x (tb_idx T')).
@@ -309,8 +316,10 @@ Proof.
   induction ops as [|o ops IH]; cbn [edit_all forallb mentioned flat_map]; intros T T' Hc He.
   - inversion He; subst. repeat split; auto.
   - apply andb_true_iff in Hc. destruct Hc as [Hc1 Hc2]. destruct (edit o T) as [T1|] eqn:E; [|discriminate].
-    destruct (edit_untouched o T T1 Hc1 E) as [A1 [A2 A3]]. destruct (IH T1 T' Hc2 He) as [B1 [B2 B3]].
-    repeat split.
+    destruct (edit_untouched o T T1 Hc1 E) as [A0 [A1 [A2 A3]]]. destruct (IH T1 T' Hc2 He) as [B0 [B1 [B2 B3]]].
+    split; [|repeat split].
+    + intros Hpk. assert (E1 : tb_pk T1 = tb_pk T) by (apply A0; intros k Hk Hm; apply (Hpk k Hk); apply in_or_app; auto).
+      rewrite <- E1. apply B0. intros k Hk Hm. rewrite E1 in Hk. apply (Hpk k Hk). apply in_or_app; auto.
     + intros k Hk. rewrite B1, A1; auto; intro; apply Hk; apply in_or_app; auto.
     + intros c Hc Hn. apply B2; [apply A2; auto|]; intro; apply Hn; apply in_or_app; auto.
     + intros x Hx Hn. apply B3; [apply A3; auto|]; intro; apply Hn; apply in_or_app; auto.
@@ -327,7 +336,7 @@ Definition w_tbl : tbl :=
   mkTbl [(w_id, mkCol w_id 0 false None); (w_a, mkCol w_a 0 true None); (w_b, mkCol w_b 2 true None); (w_c, mkCol w_c 0 true None)]
         [w_id] [mkCon w_uqc KUnique [w_c]] [mkIndex w_ixb [w_b] false].
 Definition w_rows : list row := [[VInt 1; VInt 1; VText [120]; VInt 1]; [VInt 2; VNull; VText [121]; VInt 2]].
-Definition w_in (ops:list batch_op) : input10 := mkIn10 w_tbl w_rows ops [] [].
+Definition w_in (ops:list batch_op) : input10 := mkIn10 w_tbl w_rows ops [] [] true.
 
 (* rename a -> a2, then create a UNIQUE constraint over ['a2']: accepted, and the constraint is silently left out *)
 Definition w_ops_byname := [OAlterColumn w_a (mkAlter (Some w_a2) None None None); OAddConstraint (mkCon w_uqa KUnique [w_a2])].
@@ -360,4 +369,20 @@ Theorem added_order_refuted : exists i T' nd r,
 Proof.
   exists (w_in w_ops_order). eexists. eexists. eexists.
   split; [vm_compute; reflexivity|]. split; [vm_compute; reflexivity|]. split; [vm_compute; discriminate|vm_compute; reflexivity].
+Qed.
+
+(* the primary key: if no operation mentions one of its columns it comes out identical — same columns, same order *)
+Theorem untouched_pk ops T T' : forallb in_class ops = true -> edit_all ops T = BOk T' ->
+  (forall k, In k (tb_pk T) -> ~ In k (mentioned ops)) -> n_pk (describe T') = n_pk (describe T).
+Proof.
+  intros Hc He Hpk. destruct (untouched_spec ops T T' Hc He) as [B0 [B1 _]].
+  unfold describe; cbn [n_pk]. rewrite (B0 Hpk). apply map_ext_in. intros k Hk. unfold cur_name. rewrite B1; auto.
+Qed.
+
+(* rename a -> a2, then rename 'a' back to 'a': accepted, and the second rename is ignored *)
+Definition w_ops_back := [OAlterColumn w_a (mkAlter (Some w_a2) None None None); OAlterColumn w_a (mkAlter (Some w_a) None None None)].
+Theorem rename_back_refuted : exists i, (exists nd r, model10 i = OutOk nd r false) /\ check_C10 i (model10 i) = false /\ ~ C10_holds i (model10 i).
+Proof.
+  exists (w_in w_ops_back). split; [eexists; eexists; vm_compute; reflexivity|]. split; [vm_compute; reflexivity|].
+  intros H. vm_compute in H. destruct H as [_ [_ [H _]]]. discriminate.
 Qed.
